@@ -14,4 +14,6 @@ def loopReportsCtxErr : Bool := true
 def convForwarderRecovers : Bool := true
 /-- the goroutine of `childStreamReader.toStream` recovers -/
 def childForwarderRecovers : Bool := true
+/-- `internalError.Error()` keeps the text it rendered first (false: rendered from the current fields) -/
+def errorTextMemoised : Bool := false
 end EinoV.Expected.C13
